@@ -1,4 +1,5 @@
 import MorfuseModel.Archive.Model
+import MorfuseModel.Archive.Tables
 /-!
 # Script values (`ScriptVariable::ArchiveInternal`, `ScriptConstArrayHolder::Archive`,
 `StringDictionary::ArchiveString`) on top of the Archiver model
@@ -273,7 +274,9 @@ def readValue (cfg : Cfg) : Nat → Lbl → Supply → RS → Res (Value × Supp
             (readPrim cfg .u32 s).bind fun rc s =>
             -- `uint32_t sz32;` uninitialised
             (readData cfg (Prim.u32).tag 4 none s).bind fun szb s =>
-              if (unle szb + 1) * svSize ≥ cfg.allocLimit then .err .alloc s
+              -- (repaired reader) `if (sz32 > arc.GetRemainingSize()) throw ReadStreamFail`
+              if cfg.arraySizeChecked && (!s.good || !lenGe s.rest (unle szb)) then .err .streamFail s
+              else if (unle szb + 1) * svSize ≥ cfg.allocLimit then .err .alloc s
               else (readElemsWith (readValue cfg fuel) (unle szb) sup.next.2 s).bind fun r s =>
                 .ok (.constArray sup.next.1 rc r.1, r.2) s
       | 13 =>
@@ -305,12 +308,77 @@ inductive WSch where
   | item (c : Sch)
   | value (self : Lbl) (sup : Supply)
   | named (self : Lbl) (sup : Supply)
+  /-- `ScriptVariableList::Archive` = `con::set<const_str, ScriptVariable>::Archive`, **count-directed**: the header
+      numbers, then as many named variables as the archive says (`specs`: address and label supply the host's list
+      gives the entries, in load order) -/
+  | vars (specs : List (Lbl × Supply))
+  /-- an object record the host reads as a real `Listener` (`cls`): `Listener::Archive` is directed by its flag
+      byte — event tables (`con::set<const_str, ConList>`) and a `ScriptVariableList` follow as the flag says -/
+  | lobj (m : RMode) (o : Lbl) (cls : Bytes)
 
 def schemaW : List WItem → List WSch
   | [] => []
   | .item i :: ws => .item (schemaOfItem i) :: schemaW ws
   | .value s v :: ws => .value s (supplyOf v) :: schemaW ws
   | .named s _ v :: ws => .named s (supplyOf v) :: schemaW ws
+
+/-- the entry loop of `con::set<const_str, ScriptVariable>::Archive`: `NewEntry()`, then `ScriptVariable::Archive`
+    (the name through the dictionary, `ArchiveInternal`) -/
+def readVarEntries (cfg : Cfg) (rv : Lbl → Supply → RS → Res (Value × Supply)) :
+    Nat → List (Lbl × Supply) → RS → Res (List WItem)
+  | 0, _, s => .ok [] s
+  | n + 1, specs, s =>
+    (readKey cfg s).bind fun k s =>
+      (rv (specs.headD (0, [])).1 (specs.headD (0, [])).2 s).bind fun r s =>
+        (readVarEntries cfg rv n specs.tail s).bind fun es s => .ok (.named (specs.headD (0, [])).1 k r.1 :: es) s
+
+/-- `ScriptVariableList::Archive` (`Class::Archive` archives nothing), load side: the set header with the checks of
+    `con::set::Archive` as they are (uninitialised locals; `tableLength = 0` or `count` beyond the stream:
+    `ReadStreamFail`; a `tableLength` beyond the stream is replaced by the count; the members are assigned once the
+    table exists), then `count` entries.  Returned as the calls it consists of. -/
+def readVars (cfg : Cfg) (fuel : Nat) (specs : List (Lbl × Supply)) (s : RS) : Res (List WItem) :=
+  (readData cfg (Prim.u32).tag 4 none s).bind fun tlb s =>
+  (readData cfg (Prim.u32).tag 4 none s).bind fun thb s =>
+  (readData cfg (Prim.u32).tag 4 none s).bind fun cb s =>
+    if !s.good then .err .streamFail s
+    else if unle tlb = 0 || !lenGe s.rest (unle cb) then .err .streamFail s
+    else
+      let clamp := !lenGe s.rest (unle tlb)
+      let tl := if clamp then (if unle cb > 1 then unle cb else 1) else unle tlb
+      let th := if clamp then tl else unle thb
+      (readData cfg (Prim.u16).tag 2 (some (zeros 2)) s).bind fun tlib s =>
+        if tl ≠ 1 ∧ tl * 8 ≥ cfg.allocLimit then .err .alloc s
+        else (readVarEntries cfg (readValue cfg fuel) (unle cb) specs s).bind fun es s =>
+          .ok ([.item (.prim .u32 tl), .item (.prim .u32 th), .item (.prim .u32 (unle cb)),
+                .item (.prim .u16 (unle tlib))] ++ es) s
+
+/-- `Listener::Archive`, load side: `uint8_t flag = 0`, then what the flag says, in the order of the code -/
+def readListenerBody (cfg : Cfg) (fuel : Nat) (s : RS) : Res Nat :=
+  (readPrim cfg .u8 s).bind fun flag s =>
+    (if flag % 2 = 1 then (readSet cfg s).bind fun _ s => .ok () s else .ok () s).bind fun _ s =>
+    (if flag / 2 % 2 = 1 then (readSet cfg s).bind fun _ s => .ok () s else .ok () s).bind fun _ s =>
+    (if flag / 4 % 2 = 1 then (readVars cfg fuel [] s).bind fun _ s => .ok () s else .ok () s).bind fun _ s =>
+    (if flag / 8 % 2 = 1 then (readSet cfg s).bind fun _ s => .ok () s else .ok () s).bind fun _ s => .ok flag s
+
+/-- an object record read as a real Listener (`ArchiveObject` / `ReadObject<Listener>()` / `ReadObject()`): the record
+    logic of `readItem (.object …)` (same text of `Archiver.cpp`) around the data-directed body; when `ReadObject()`
+    finds another class in the record, the instance it creates is one of the harness's scripted classes and reads the
+    host's script `p u8` -/
+def readLobj (cfg : Cfg) (classes : List Bytes) (fuel : Nat) (m : RMode) (o : Lbl) (cls : Bytes) (s : RS) : Res WItem :=
+  (readN cfg 4 none s).bind fun tb s =>
+    if unle tb ≠ objTag then .err .typeError s else
+    (readN cfg 8 none s).bind fun sb s =>
+      (readStr cfg [] s).bind fun name s =>
+        match getClass classes name with
+        | none => .err .invalidClass s
+        | some c =>
+          if m ≠ .poly ∧ c ≠ cls then .err .objectClassError s else
+          (readData cfg (Prim.u32).tag 4 none s).bind fun ib s =>
+            if cfg.indexChecked && (unle ib == 0 || unle ib > s.table.length) then .err .invalidIndex s else
+            let objstart := tell s
+            (if c = cls then readListenerBody cfg fuel s else readPrim cfg .u8 s).bind fun flag s =>
+              brk (bracketOf m (tell s - objstart) (toInt64 (unle sb))) s
+                ((addAt cfg (unle ib) o s).bind fun _ s => .ok (.item (.object m o c [.prim .u8 (flag % 16)])) s)
 
 def readW (cfg : Cfg) (classes : List Bytes) (fuel : Nat) : List WSch → RS → Res (List WItem)
   | [], s => .ok [] s
@@ -323,6 +391,12 @@ def readW (cfg : Cfg) (classes : List Bytes) (fuel : Nat) : List WSch → RS →
     (readKey cfg s).bind fun k s =>
       (readValue cfg fuel self sup s).bind fun r s =>
         (readW cfg classes fuel cs s).bind fun is s => .ok (.named self k r.1 :: is) s
+  | .vars specs :: cs, s =>
+    (readVars cfg fuel specs s).bind fun vs s =>
+      (readW cfg classes fuel cs s).bind fun is s => .ok (vs ++ is) s
+  | .lobj m o cls :: cs, s =>
+    (readLobj cfg classes fuel m o cls s).bind fun i s =>
+      (readW cfg classes fuel cs s).bind fun is s => .ok (i :: is) s
 
 def look (table : List Lbl) (i : Nat) : Lbl := if i = 0 then 0 else table.getD (i - 1) 0
 
